@@ -282,3 +282,109 @@ _add(Cond('framego_hierarchical_columns_grow_then_convert', [('a', 'int'), ('rea
         functions=['FrameGO.__setitem__', 'IndexHierarchyGO.append'],
         bounds='FrameGO 2x2 with IndexHierarchyGO columns; one new column under a new outer label (inner label symbolic in 9..11); symbolic choice of reading the columns (cache materialised) before the growth and of the conversion (to_frame / Frame(g) / to_frame_go)',
         route='FrameGO[(outer, inner)] = column, then conversion: the converted frame has every label and the data in step', timeout=240))
+
+
+# ---------------------------------------------------------------- typed (datetime) grow-only index: all-or-nothing over label FORMS
+
+def body_indexdatego_extend(env, d0, d1, f0, f1, read):
+    """The same day may be supplied as an ISO string, a datetime.date or a datetime64: duplicates are duplicates of the
+    LABEL, whatever the form."""
+    from vf import rt
+    import datetime
+    d0, d1, f0, f1, read = _conc(d0, 1, 3), _conc(d1, 1, 3), _conc(f0, 0, 2), _conc(f1, 0, 2), bool(read)
+
+    def run():
+        sf = env.sf
+        import numpy as real_np   # label values only: concrete datetime64 scalars are NumPy's own objects in both worlds
+
+        def form(day, f):
+            if f == 0:
+                return f'2020-01-0{day}'
+            if f == 1:
+                return datetime.date(2020, 1, day)
+            return real_np.datetime64(f'2020-01-0{day}')
+        idx = sf.IndexDateGO(('2020-01-01',))
+        static = sf.IndexDate(idx)
+        if read:
+            _ = idx.values
+        try:
+            idx.extend((form(d0, f0), form(d1, f1)))
+            accepted = True
+        except grow_errors():
+            accepted = False
+        ref_accept = d0 != 1 and d1 != 1 and d0 != d1
+        days = [1] + ([d0, d1] if ref_accept else [])
+        labels = [f'2020-01-0{d}' for d in days]
+        got = [accepted, [str(x) for x in idx], len(idx), [str(x) for x in idx.values.tolist()], [env.obs(idx.loc_to_iloc(l)) for l in labels],
+               [str(x) for x in static], len(static)]
+        exp = [ref_accept, labels, len(labels), labels, list(range(len(labels))), ['2020-01-01'], 1]
+        return got, exp
+    return rt.untraced(run)
+
+
+_add(Cond('indexdatego_extend_all_or_nothing', [('d0', 'int'), ('d1', 'int'), ('f0', 'int'), ('f1', 'int'), ('read', 'bool')], body_indexdatego_extend,
+        ranges={'d0': (1, 3), 'd1': (1, 3), 'f0': (0, 2), 'f1': (0, 2)},
+        functions=['_IndexGOMixin.extend', '_IndexDatetimeGOMixin.append'],
+        bounds='IndexDateGO [2020-01-01]; extend by two days symbolic in Jan 1..3, each given as an ISO string / datetime.date / datetime64 (symbolic form); cache materialised or not',
+        route='IndexDateGO.extend: both labels appended or the index exactly as before (duplicates are duplicates of the label whatever its form); a static copy is unaffected', timeout=300))
+
+
+# ---------------------------------------------------------------- deep hierarchies: extend from a GROW-ONLY source, then either side grows
+
+def body_ihgo_deep_extend(env, a, which, via_frame, read):
+    from vf import rt
+    a, which, via_frame, read = _conc(a, 9, 12), _conc(which, 0, 1), bool(via_frame), bool(read)
+
+    def run():
+        sf = env.sf
+        t1 = [(1, 5, 10), (1, 5, 11)]
+        t2 = [(2, 6, 10), (2, 6, 11)]
+
+        def views(ix):
+            probes = [(2, 6, a), (1, 5, a)]
+            return [env.obs([list(t) for t in ix]), len(ix), env.obs(ix.values.tolist()), [bool(p in ix) for p in probes], list(ix.shape)]
+        if via_frame:
+            f1 = sf.FrameGO(env.array([[1, 2]], 'int64'), columns=sf.IndexHierarchyGO.from_labels(t1))
+            f2 = sf.FrameGO(env.array([[3, 4]], 'int64'), columns=sf.IndexHierarchyGO.from_labels(t2))
+            f1.extend(f2)
+            g1, g2 = f1.columns, f2.columns
+        else:
+            g1 = sf.IndexHierarchyGO.from_labels(t1)
+            g2 = sf.IndexHierarchyGO.from_labels(t2)
+            g1.extend(g2)
+        if read:
+            _ = g1.values, g2.values
+        before = [views(g1), views(g2)]
+        new = (2, 6, a)
+        grown, other = (g1, g2) if which == 0 else (g2, g1)
+        try:
+            if via_frame:
+                (f1 if which == 0 else f2)[new] = env.array([9], 'int64')
+            else:
+                grown.append(new)
+            accepted = True
+        except grow_errors():
+            accepted = False
+        held = a in (10, 11)
+        all1 = [list(t) for t in t1 + t2]
+        exp_before = [[all1, 4, all1, [held, held], [4, 3]], [[list(t) for t in t2], 2, [list(t) for t in t2], [held, False], [2, 3]]]
+        base = t1 + t2 if which == 0 else t2
+        exp_grown_t = [list(t) for t in base] + ([list(new)] if not held else [])
+        got = [before, accepted, views(grown), views(other)]
+        exp = [exp_before, not held,
+               [exp_grown_t, len(exp_grown_t), exp_grown_t, [True, (a in (10, 11)) and which == 0], [len(exp_grown_t), 3]],
+               exp_before[1] if which == 0 else exp_before[0]]
+        if via_frame:
+            got.append([list(f1.shape), list(f2.shape)])
+            n1 = 4 + (1 if (which == 0 and not held) else 0)
+            n2 = 2 + (1 if (which == 1 and not held) else 0)
+            exp.append([[1, n1], [1, n2]])
+        return got, exp
+    return rt.untraced(run)
+
+
+_add(Cond('indexhierarchygo_depth3_extend_from_go_then_growth', [('a', 'int'), ('which', 'int'), ('via_frame', 'bool'), ('read', 'bool')], body_ihgo_deep_extend,
+        ranges={'a': (9, 12), 'which': (0, 1)},
+        functions=['IndexLevelGO.extend', 'IndexHierarchyGO.extend'],
+        bounds='two depth-3 IndexHierarchyGO (or FrameGO with such columns, symbolic); the first is extended with the second (a GROW-ONLY source); then one of the two (symbolic) gains the leaf (2, 6, a), a symbolic in 9..12 (new or held); caches read or not',
+        route='extend from a grow-only source shares nothing: growth of either side afterwards leaves every view of the other (tuples, len, values, membership, shape) unchanged', timeout=300))
